@@ -78,6 +78,8 @@ def tasks(tier, seed):
                 out.append({"fn": "accumulate", "kwargs": {"k": k, "weights": w, "which": f}, "label": f"accumulate/k={k},weights={w},{f}"})
                 if w == "vector" or (tier == "thorough"):
                     out.append({"fn": "accumulate", "kwargs": {"k": k, "weights": w, "which": f, "full": True}, "label": f"accumulate/k={k},weights={w},{f},full"})
+                if w != "none" and k <= 2:
+                    out.append({"fn": "accumulate", "kwargs": {"k": k, "weights": w, "which": f, "full": True, "target_dtype": "int32"}, "label": f"accumulate/k={k},weights={w},{f},full,int32"})
     out.append({"fn": "declared_at_run", "kwargs": {}, "label": "declared_at_run"})
     for isl, ind in ((1, 2), (2, 3)) if tier == "quick" else ((1, 2), (2, 3), (3, 3), (2, 5)):
         out.append({"fn": "champions", "kwargs": {"islands": isl, "individuals": ind}, "label": f"champions/islands={isl},individuals={ind}"})
@@ -231,7 +233,7 @@ def _xr_shim():
     return m
 
 
-def accumulate(k, weights, which, full=False):
+def accumulate(k, weights, which, full=False, target_dtype="float64"):
     fd = importlib.import_module("pyxel.calibration.fitting_datatree")
     fm = importlib.import_module("pyxel.calibration.fitness")
     from pyxel.calibration.util import FitRange2D, FitRange3D
@@ -239,7 +241,8 @@ def accumulate(k, weights, which, full=False):
     from pyxel.observation import ParameterValues
     from pyxel.pipelines import DetectionPipeline, ModelFunction, Processor
 
-    targets = sym_array("tgt", (k,) + FR)
+    # target files may hold integer images (raw frames): the declared weights are real numbers whatever the targets' dtype
+    targets = sym_array("tgt", (k,) + FR) if target_dtype == "float64" else sym_array("tgt", (k,) + FR, kind="int", dtype=target_dtype)
     sims = [sym_array(f"sim{i}", FR) for i in range(k)]
     wfile = sym_array("wfile", (k,) + FR)
     wvec = [vx.real(f"wv_{i}") for i in range(k)]
@@ -309,7 +312,7 @@ def accumulate(k, weights, which, full=False):
             champion = prob.convert_to_parameters(symnp.asarray([dv]))
             for proc_i in prob.param_processor_list:
                 prob._apply_parameters(processor=proc_i, parameter=champion)
-    lab = f"k={k},weights={weights},{which},{'full' if full else 'shifted'}"
+    lab = f"k={k},weights={weights},{which},{'full' if full else 'shifted'}" + ("" if target_dtype == "float64" else f",{target_dtype}")
     if failed is not None:
         # weight vectors are expanded to the full detector frame by the implementation, which cannot be combined
         # with a restricted fit range: the call fails loudly instead of weighting silently wrong data
@@ -605,6 +608,10 @@ def _replay_accumulate(kwargs, model, champion=False):
     sims = [np.array([g(f"sim{i}_{j}", rng.uniform(0, 9)) for j in range(9)]).reshape(FR) for i in range(k)]
     wf = np.array([[g(f"wfile_{i * 9 + j}", rng.uniform(0.5, 2)) for j in range(9)] for i in range(k)]).reshape((k,) + FR)
     wv = [g(f"wv_{i}", 1.0 + i) for i in range(k)]
+    if kwargs.get("target_dtype", "float64") != "float64":
+        tgt = np.rint(tgt).astype(kwargs["target_dtype"])
+        if all(float(w_).is_integer() for w_ in wv):
+            wv = [w_ + 0.5 for w_ in wv]  # an integer weight survives a cast to the targets' integer type unnoticed
     dv = g("dv", 0.25)
     if np.allclose(wf, wf.flat[0]):
         wf = wf + rng.uniform(0.1, 1.0, size=wf.shape)  # a uniform weight map cannot show which window was used
@@ -619,7 +626,7 @@ def _replay_accumulate(kwargs, model, champion=False):
         tfiles, wfiles = [], []
         for i in range(k):
             tfiles.append(os.path.join(tmp, f"tgt{i}.npy"))
-            np.save(tfiles[-1], tgt[i])
+            np.save(tfiles[-1], tgt[i])  # (integer targets: see below)
             wfiles.append(os.path.join(tmp, f"w{i}.npy"))
             np.save(wfiles[-1], wf[i])
 
